@@ -8,6 +8,7 @@ import (
 	"io"
 	"log/slog"
 	"sort"
+	"time"
 
 	"github.com/opencontainers/go-digest"
 
@@ -38,7 +39,12 @@ func ZZC06_reg_history() {
 			break
 		}
 	}
-	rg := New(WithSlog(slog.New(slog.NewTextHandler(io.Discard, nil))))
+	zzClockHorizon(int64(time.Minute))
+	ropts := []Opts{WithSlog(slog.New(slog.NewTextHandler(io.Discard, nil)))}
+	if zzBool("response_cache") {
+		ropts = append(ropts, WithCache(time.Hour, 100))
+	}
+	rg := New(ropts...)
 	rg.reghttp = reghttp.ZZNewClient()
 	reghttp.ZZHook_Client_Do = srv.Do
 	ctx := context.Background()
@@ -86,6 +92,13 @@ func ZZC06_reg_history() {
 	for t, d := range model {
 		srv.Repo("repo").Tags[t] = d.String()
 	}
+	// the client has seen the repository before (fills the response cache when there is one)
+	for i := range mans {
+		_, _ = rg.ManifestGet(ctx, r.SetDigest(mans[i].GetDescriptor().Digest.String()))
+	}
+	for _, k := range tagNames {
+		_, _ = rg.ManifestHead(ctx, r.SetTag(k))
+	}
 	steps := 1 + zzTier()
 	for s := 0; s < steps; s++ {
 		ti := zzInt("tag", 0, 2)
@@ -123,7 +136,11 @@ func ZZC06_reg_history() {
 			if zzBool("check_referrers") {
 				opts = append(opts, scheme.WithManifestCheckReferrers())
 			}
-			err := rg.ManifestDelete(ctx, r.SetDigest(md.String()), opts...)
+			rd := r.SetDigest(md.String())
+			if zzBool("delete_ref_also_has_a_tag") {
+				rd = r.SetTag(t).AddDigest(md.String()) // repo:tag@digest, as regctl --force-tag-dereference and the tag-delete fall-back build it
+			}
+			err := rg.ManifestDelete(ctx, rd, opts...)
 			if stored[md] {
 				zzAssert(err == nil, "rh_delete_of_stored_manifest_succeeds")
 			}
